@@ -15,3 +15,6 @@ import JaxVerif.Properties.C01
 #print axioms JV.C01_source_variadic
 #print axioms JV.C01_source_variadic_first
 #print axioms JV.C01_source_stages
+#print axioms JV.C01_source_slices
+#print axioms JV.C01_source_rank_tests
+#print axioms JV.C01_source_slices_lists
